@@ -69,7 +69,7 @@ def write_game(idx, rnd, workdir):
     while g is None:
         g = gen_game(rnd)
     nodes, children, static = g
-    name = "MC_SearchG%d" % idx
+    name = "MC_SearchG%d_%d" % (os.getpid(), idx)     # unique per process: several checks may run at once
     seq = lambda v: "<< >>" if not v else "<<" + ", ".join(map(str, v)) + ">>"
     text = TEMPLATE.format(name=name, idx=idx, nn=len(nodes), np=len(static), last=len(nodes) - 1,
                            children=fn(children, seq),
